@@ -209,6 +209,8 @@ def shown_lines(ctx, res, rule):
                 binds = [q for q in T.pat_nodes(fl[-1]["pat"]) if q.get("p") == "bind" and "str" in (q.get("ty") or "")]
                 var, body_ = (binds[0]["id"] if len(binds) == 1 else None), fl[-1]["body"]
         if var is None:
+            if p1.get("k") == "mcall" and T.peel_ref(p1["recv"]) is x and T.shortened("." + p1["name"] + "("):
+                okb, why = False, "the lines of the highlighted part go through `%s(..)` before they are put back" % p1["name"]
             continue
         uses = 0
         for y, ypar in T.walk(body_):
@@ -270,7 +272,7 @@ def tab_counter(ctx, res, rule):
     r = T.render(body)
     folds = [n for n in T.nodes(body, "mcall") if n["name"] == "fold" and len(n["args"]) == 2 and T.peel(n["args"][1]).get("k") == "closure"]
     filts = [n for n in T.nodes(body, "mcall") if n["name"] == "filter" and len(n["args"]) == 1 and T.peel(n["args"][0]).get("k") == "closure"]
-    src_ok = re.search(r"\b\w+\.(chars|bytes)\(\)", r) is not None
+    src_ok = re.search(r"\b\w+\.(chars|bytes)\(\)", r) is not None and not T.shortened(r.split(".filter(")[0].split(".fold(")[0]) and not T.shortened(r.rsplit(")", 1)[0].rsplit("|", 1)[-1] if ".filter(" in r else "")
     verdict = None
     I = A.Interp(P)
     I.lazy_locals = True
@@ -718,6 +720,18 @@ def colour(ctx, res, rule):
         res.holds(rule, "code::list", "sibling-call-sites", "args equal except coloring: JSON=false, pretty=true")
     else:
         res.add(Finding(rule, "code::list", "sibling-call-sites", "build_list and build_pretty_string render items with different arguments (besides the colour flag): %s vs %s" % (a0, a1), loc=T.loc(calls[0][1])))
+    # both forms render every marker, in order
+    for b_, c_ in calls:
+        trav = None
+        for x, par in T.walk(b_["tree"]):
+            if x is c_:
+                ms = [q for q in par if q.get("k") == "mcall" and q["name"] in ("map", "for_each", "fold") and any(z is c_ for a_ in q["args"] for z in T.nodes(a_))]
+                fl = [q for q in par if q.get("k") == "for"]
+                trav = T.render(ms[0]["recv"]) if ms else (T.render(fl[0]["iter"]) if fl else None)
+        if trav is not None and trav.startswith(("markers.iter()", "markers")) and not T.shortened(trav) and not re.search(r"\.zip\(.*(saturating_sub|- 1)", trav):
+            res.holds(rule, fshort(b_), "all-markers-rendered", trav[:60])
+        else:
+            res.add(Finding(rule, fshort(b_), "all-markers-rendered", "the items are rendered from `%s`, not from every marker in order" % (trav or "?")[:80], loc=T.loc(c_)))
     # line_range computed identically
     lr = []
     for b, c in calls:
